@@ -77,9 +77,12 @@ type GOpt struct {
 type GNode struct {
 	UID      int        `json:"uid"`
 	Key      int        `json:"key"`
-	Kind     string     `json:"kind"` // lambda | pass | sub | tools
+	Kind     string     `json:"kind"`             // lambda | pass | sub | tools | stop (a configured interrupt point: a stage of its own, no node)
+	Before   []int      `json:"before,omitempty"` // stop: keys of nodes of the next stage named in WithInterruptBeforeNodes of this graph level
+	After    []int      `json:"after,omitempty"`  // stop: keys of nodes of the stage before named in WithInterruptAfterNodes
 	Natives  int        `json:"natives,omitempty"`
 	Fails    bool       `json:"fails,omitempty"`
+	Panics   bool       `json:"panics,omitempty"` // lambda (with Fails): the node fails by panicking; eino contains the panic and reports it as the node\'s error
 	Intr     int        `json:"intr,omitempty"`   // lambda: the first Intr executions return compose.InterruptAndRerun
 	SelfCB   bool       `json:"selfcb,omitempty"` // the lambda fires its callbacks itself (WithLambdaCallbackEnable)
 	DelayUs  int        `json:"delay,omitempty"`
@@ -181,6 +184,8 @@ func errClass(err error) string {
 		return "interrupt"
 	case errors.Is(err, errNode):
 		return "failure"
+	case strings.Contains(err.Error(), panicMsg):
+		return "panic"
 	case strings.HasPrefix(err.Error(), "payload:"):
 		return err.Error()
 	}
